@@ -75,8 +75,8 @@ func GCPStreamClientInterceptor(
 		method:   method,
 		streamer: streamer,
 		opts:     opts,
+		ready:    make(chan struct{}),
 	}
-	cs.cond = sync.NewCond(cs)
 	return cs, nil
 }
 
@@ -84,7 +84,9 @@ type gcpClientStream struct {
 	sync.Mutex
 	grpc.ClientStream
 
-	cond          *sync.Cond
+	// ready is closed as soon as the first SendMsg has created the underlying
+	// ClientStream or has failed to create it. It is never sent on.
+	ready         chan struct{}
 	initStreamErr error
 
 	ctx      context.Context
@@ -103,28 +105,41 @@ func (cs *gcpClientStream) SendMsg(m interface{}) error {
 		realCS, err := cs.streamer(ctx, cs.desc, cs.cc, cs.method, cs.opts...)
 		if err != nil {
 			cs.initStreamErr = err
+			cs.signalReady()
 			cs.Unlock()
-			cs.cond.Broadcast()
 			return err
 		}
 		cs.ClientStream = realCS
+		cs.signalReady()
 	}
 	cs.Unlock()
-	cs.cond.Broadcast()
 	return cs.ClientStream.SendMsg(m)
+}
+
+// signalReady wakes up the receivers waiting for the underlying ClientStream.
+// It must be called with the lock held.
+func (cs *gcpClientStream) signalReady() {
+	select {
+	case <-cs.ready:
+		// Already signalled by an earlier SendMsg.
+	default:
+		close(cs.ready)
+	}
 }
 
 func (cs *gcpClientStream) RecvMsg(m interface{}) error {
 	// If RecvMsg is called before SendMsg, it should wait until cs.ClientStream
-	// is initialized or the initialization failed.
-	cs.Lock()
-	for cs.initStreamErr == nil && cs.ClientStream == nil {
-		cs.cond.Wait()
+	// is initialized or the initialization failed, or until the call's context ends.
+	select {
+	case <-cs.ready:
+	case <-cs.ctx.Done():
+		return cs.ctx.Err()
 	}
-	if err := cs.initStreamErr; err != nil {
-		cs.Unlock()
+	cs.Lock()
+	err, realCS := cs.initStreamErr, cs.ClientStream
+	cs.Unlock()
+	if err != nil {
 		return err
 	}
-	cs.Unlock()
-	return cs.ClientStream.RecvMsg(m)
+	return realCS.RecvMsg(m)
 }
